@@ -59,6 +59,8 @@ type Dump struct {
 	K string      `json:"k"`
 	B B           `json:"b"`
 	E []DumpEntry `json:"e"`
+	// F32: for a float64 that is exactly a float32 value, the bits of that float32 (Protobuf float fields surface as float64)
+	F32 B `json:"f32,omitempty"`
 }
 type DumpEntry struct {
 	Key Dump `json:"key"`
@@ -581,7 +583,11 @@ func dumpIface(x interface{}) Dump {
 	case uint8:
 		return Dump{K: "int", B: be8(int64(v)), E: []DumpEntry{}}
 	case float64:
-		return Dump{K: "dbl", B: be8(int64(math.Float64bits(v))), E: []DumpEntry{}}
+		d := Dump{K: "dbl", B: be8(int64(math.Float64bits(v))), E: []DumpEntry{}}
+		if f := float32(v); float64(f) == v || v != v {
+			d.F32 = be4(math.Float32bits(f))
+		}
+		return d
 	case float32:
 		return Dump{K: "flt", B: be4(math.Float32bits(v)), E: []DumpEntry{}}
 	case uint16:
